@@ -3,6 +3,7 @@ Link-layer half (engine `layer`, real link::layer::Layer over the real reader); 
 half (engine `outstation`) is appended by cases_session()."""
 from propcheck import *
 import dnp
+import ost
 
 DESTS = {"own": None, "other": 77, "self": 0xFFFC, "bc_opt": 0xFFFF, "bc_mand": 0xFFFE, "bc_none": 0xFFFD,
          "reserved": 0xFFF5}
@@ -12,7 +13,7 @@ FUNCS = {0x40: "reset", 0x42: "test", 0x43: "confirmed", 0x44: "unconfirmed", 0x
          0x00: "ack", 0x01: "nack", 0x0B: "lsresp", 0x0F: "notsupp"}
 
 
-class C07(Prop):
+class C07(ost.OutstationProp):
     id = "C07"
     translators = ["gen_link"]
     proof_targets = ["Link/LayerProofs.vo"]
@@ -23,6 +24,77 @@ class C07(Prop):
             "exhaustive in the thorough tier) after a preamble that puts the secondary station in a chosen state; "
             "plus confirmed-data sequences with frame-count-bit toggling; non-trivial = the endpoint acted (reply or "
             "frame passed up); distinct = distinct (config, trace)")
+
+    def model_script(self, case, impl):
+        if case.meta.get("engine") == "outstation":
+            return ost.OutstationProp.model_script(self, case, impl)
+        return case.script
+
+    def canon(self, lines, side):
+        if lines and (lines[0].split()[:1] or ["x"])[0].isdigit():
+            return ost.OutstationProp.canon(self, lines, side)
+        return lines
+
+    def cases_session_c07(self, rng, n):
+        """session half: fragments of every kind from a foreign master and by broadcast, in idle and in both
+        confirm waits (engine `outstation`, hook H6 stamps the source and broadcast mode per fragment)"""
+        out = []
+        F = ost.FN
+        for i in range(n):
+            cfg = self.base_cfg(rng)
+            cfg["soltx"] = 249
+            ops = []
+            big = rng.chance(1, 2)
+            for k in range(120 if big else 2):
+                ops.append(("add", "analog", k, rng.choice([0, 1]) if not big else 0))
+            ops.append(("update", "analog", 1, "5", 1, 100))
+            seq = rng.below(16)
+            victims = [ost.frag(seq, F["read"], ost.read_classes((1, 2, 3, 0))), ost.frag(seq, F["write"], ost.write_iin(7, 0)),
+                       ost.frag(seq, F["direct"], self.rand_controls(rng)), ost.frag(seq, F["direct_nr"], self.rand_controls(rng)),
+                       ost.frag(seq, F["select"], self.rand_controls(rng)), ost.frag(seq, F["delay"]), ost.frag(seq, F["record"]),
+                       ost.frag(seq, F["enable"], ost.read_classes((1, 2, 3))), ost.frag(seq, F["disable"], ost.read_classes((1,))),
+                       ost.frag(seq, F["cold"]), ost.frag(seq, F["freeze_nr"], bytes([0x14, 0, 6])),
+                       bytes([ost.ctl(seq), 0x70]), bytes([ost.ctl(seq, fin=False), 1]), bytes([ost.ctl(seq)]), ost.frag(seq, F["read"], bytes([1])),
+                       ost.frag(seq, F["confirm"]), ost.frag((seq + 1) & 15, F["confirm"]), ost.frag(rng.below(16), F["confirm"], uns=True),
+                       ost.frag(seq, 129, bytes([0, 0]))]
+            # optionally open a solicited series first so that the victim arrives in the confirm wait
+            state = rng.choice(["idle", "solwait", "solwait", "any"])
+            if state != "idle":
+                ops.append(("rx", ost.MASTER, "none", hexs(ost.frag(seq, F["read"], ost.read_classes((1, 2, 3, 0))))))
+            for _ in range(rng.range(1, 4)):
+                v = rng.choice(victims)
+                who = rng.choice(["foreign", "bcast", "bcast", "master"])
+                frm = ost.FOREIGN if who == "foreign" else ost.MASTER
+                bc = rng.choice(["opt", "mand", "notreq"]) if who == "bcast" else "none"
+                ops.append(("rx", frm, bc, hexs(v)))
+                if rng.chance(1, 3):
+                    ops.append(("rx", ost.MASTER, "none", hexs(ost.frag(seq, F["confirm"]))))
+                    seq = (seq + 1) & 15
+                if rng.chance(1, 5):
+                    ops.append(("sleep", rng.choice([1, 1000, 5000])))
+            sid = "c07_s_%d" % i
+            out.append(Case(sid, script_text(sid, "outstation", cfg, ops), {"kind": "session", "engine": "outstation", "cfg": cfg}))
+        return out
+
+    def oracle_session(self, case, impl):
+        fails = self.common_fail(impl)
+        cfg = case.meta.get("cfg", {})
+        any_master = int(cfg.get("anymaster", 0)) == 1
+        for op, t, lines in ost.split_steps(impl):
+            if op[0] != "rx":
+                continue
+            frm, bc = int(op[1]), op[2]
+            acted = [l for l in lines if len(l.split()) > 1 and l.split()[1] in ("tx", "cb", "info", "db")]
+            if bc == "none" and frm != ost.MASTER and not any_master:
+                if acted:
+                    fails.append(("acted-for-foreign-master", "the outstation acted on a fragment from master %d (configured %d): %s"
+                                  % (frm, ost.MASTER, acted[0][:80])))
+            if bc != "none":
+                sol = [b for (_, _, b) in ost.txs(lines) if len(b) >= 2 and b[1] == 129]
+                if sol:
+                    fails.append(("reply-to-broadcast", "a solicited response was transmitted in reaction to a broadcast fragment %s: %s"
+                                  % (op[3][:12], sol[0].hex()[:24])))
+        return fails
 
     def frame(self, ctrl, dest, src, payload=b""):
         return dnp.link_frame(ctrl, dest, src, payload)
@@ -45,7 +117,7 @@ class C07(Prop):
                                      [("feed", hexs(f)) for f in feeds]), meta)
 
     def cases(self, rng, tier):
-        out = []
+        out = self.cases_session_c07(rng, 150 if tier == "quick" else 3000)
         i = 0
         if tier == "thorough":
             for role in ("master", "outstation"):
@@ -91,6 +163,8 @@ class C07(Prop):
 
     def oracle(self, case, impl):
         m = case.meta
+        if m.get("engine") == "outstation":
+            return self.oracle_session(case, impl)
         fails = []
         for l in impl:
             if l.startswith("panic") or l.startswith("harness-died") or l == "missing" or l.startswith("err "):
@@ -147,10 +221,14 @@ class C07(Prop):
         return fails
 
     def nontrivial(self, case, impl):
+        if case.meta.get("engine") == "outstation":
+            return any(" tx " in l for l in impl)
         skip = {0: 0, 1: 1, 2: 3}.get(case.meta.get("pre", 0), 0)
         return len([l for l in impl if l != "end"]) > skip
 
     def finding_signature(self, case, clause, desc):
+        if case.meta.get("engine") == "outstation":
+            return clause
         return "%s/%s/%s" % (clause, case.meta.get("kind"), case.meta.get("dest"))
 
 
